@@ -879,6 +879,9 @@ func (t *streamableHTTPClientTransport) sendResponseToServer(response interface{
 		t.logger.Errorf("Error creating HTTP request for response: %v", err)
 		return
 	}
+	if len(t.path) != 0 {
+		httpReq.URL.Path = t.path
+	}
 
 	httpReq.Header.Set("Content-Type", "application/json")
 
@@ -892,6 +895,14 @@ func (t *streamableHTTPClientTransport) sendResponseToServer(response interface{
 	// Add session ID if available
 	if t.sessionID != "" {
 		httpReq.Header.Set(httputil.SessionIDHeader, t.sessionID) // Use correct MCP protocol header: Mcp-Session-Id.
+	}
+
+	// Apply HTTP before-request functions.
+	if t.client != nil {
+		if err := t.client.applyHTTPBeforeRequest(ctx, httpReq); err != nil {
+			t.logger.Errorf("HTTP before-request failed for response: %v", err)
+			return
+		}
 	}
 
 	var resp *http.Response
@@ -939,8 +950,15 @@ func (t *streamableHTTPClientTransport) terminateSession(ctx context.Context) er
 		}
 	}
 
+	// Apply HTTP before-request functions.
+	if t.client != nil {
+		if err := t.client.applyHTTPBeforeRequest(ctx, httpReq); err != nil {
+			return fmt.Errorf("HTTP before-request failed: %w", err)
+		}
+	}
+
 	// Send request
-	httpResp, err := t.httpClient.Do(httpReq)
+	httpResp, err := t.httpReqHandler.Handle(ctx, t.httpClient, httpReq)
 	if err != nil {
 		return fmt.Errorf("HTTP request failed: %w", err)
 	}
